@@ -83,6 +83,8 @@ def make_market_class():
             self.accrue = False            # C02: the market's value depends on the data of every bar (column v)
 
         def check_market(self):
+            if self._data.index.nlevels > 1:      # a book: DeribitOptionMarket.check_market only asks for a DataFrame
+                return
             super().check_market()
 
         def update(self):
@@ -105,8 +107,9 @@ def make_market_class():
                 if data.timestamp in self._data.index:
                     row = self._data.loc[data.timestamp]
                     data.data = row
-                    if not pd.isna(row["x"]):
-                        src = int(row["x"])
+                    x = row["x"].iloc[0] if isinstance(row, pd.DataFrame) else row["x"]      # a book: several rows per timestamp
+                    if not pd.isna(x):
+                        src = int(x)
                 else:
                     data.data = pd.Series(dtype=object)
             self._market_status = data
@@ -124,7 +127,11 @@ def make_market_class():
             return ""
 
         def _resample(self, freq):
-            self._data = self._data.resample(freq).first()
+            if self._data.index.nlevels > 1:     # a book (one row per instrument and timestamp): every instrument resampled like a plain frame
+                # (every bin from its first to its last row; DeribitOptionMarket additionally drops the empty bins — its own model's subject)
+                self._data = self._data.groupby(level=1).resample(freq, level=0).first().swaplevel(1, 0).sort_index()
+            else:
+                self._data = self._data.resample(freq).first()
 
         @write_func
         def op(self, tag, ok=True, amount=None):
@@ -158,8 +165,12 @@ class Recorder:
         self.events.append(e)
 
 
-def frame(times):
-    """data frame of a probe market: index = the given model times, x = the time itself"""
+def frame(times, rows=1):
+    """data frame of a probe market: index = the given model times, x = the time itself; rows > 1: a book with `rows` rows per timestamp
+    under a (time, instrument) index, as a Deribit option frame has"""
+    if rows > 1:
+        idx = pd.MultiIndex.from_tuples([(at(t), f"I{j:03d}") for t in times for j in range(rows)], names=["time", "instrument_name"])
+        return pd.DataFrame({"x": [int(t) for t in times for _ in range(rows)]}, index=idx)
     return pd.DataFrame({"x": [int(t) for t in times]}, index=pd.DatetimeIndex([at(t) for t in times]))
 
 
@@ -242,7 +253,7 @@ def build(markets, price_times, interval="1min", rec=None):
             m, usdc_u, eth = uni_market(name, times, rec, i)
             usdc = usdc_u
         else:
-            m = PM(MarketInfo(name), frame(times), rec, i)
+            m = PM(MarketInfo(name), frame(times, spec[4] if len(spec) > 4 else 1), rec, i)
             m.quote_token = usdc
         if has_open:
             m.open = (lambda mid: lambda snap: rec.on_open(mid, snap))(i)
